@@ -263,28 +263,39 @@ pub fn history_strategy() -> impl Strategy<Value = Vec<Item>> {
 pub fn run(cx: &Cx) -> Report {
     let mut rep = Report::new(RULE);
     rep.assumptions = vec![
-        "inputs are classed cheap/expensive by a static bound on result size (literal exponents <= 5000, digits <= 10000, every intermediate value <= 2^15 bits, factorize operands of complexity <= 6); expensive inputs are skipped and counted, never run".into(),
+        "inputs are classed cheap/expensive by a static bound on result size (literal exponents <= 5000, digits <= 10000, every intermediate value <= 2^15 bits); expensive inputs are skipped and counted, never run".into(),
         "absence of crashes is only searched for, never established".into(),
         "the worker's main thread has an 8 MiB stack like an interactive rink; a panic is caught in the worker, a signal death or a confirmed overrun is observed by the supervisor".into(),
     ];
     let known = cx.known.clone();
     crate::regress::run(cx, &mut rep, &replay);
     rep.mark(cx, "regress");
-    // recorded finding F-11: `factorize` searches an exponential space. One fixed witness is
-    // timed on a worker of its own while the histories run; it is reported as KNOWN-FINDING when
-    // it overruns and said nothing about when it does not (never a violation: the classifier
-    // keeps such queries out of the generated histories as expensive)
-    const F11: &str = "hang:factorize-exponential-search";
-    let f11 = if known.contains(F11) {
-        Some(std::thread::spawn(|| {
-            let mut sup = Supervised::new(vec![json!({"cmd": "new_ctx"})]);
-            let t0 = std::time::Instant::now();
-            let out = sup.call(&json!({"cmd": "eval", "line": "factorize J^2", "save_prev": false}), Duration::from_secs(10));
-            (matches!(out, Ok(Outcome::Timeout(_))), t0.elapsed().as_secs_f64())
-        }))
-    } else {
-        None
-    };
+    // finding F-11 (repaired): `factorize` searched an exponential space and recursed as deep as the
+    // exponent. Operands of every complexity now have to be answered (with factorizations or with
+    // an error) inside the ordinary budget: a fixed ladder of them, each on a worker
+    {
+        let mut ladder: Vec<String> = vec![];
+        for q in ["J^2", "W^2", "V^2", "energy", "power", "kg^2 m^4 / s^6", "N m^3", "kg m^2 / s^3 A^2", "kg^3 m^3 s^-3 A^3 K^3", "kg^2 m^2 s^-2 A^2 K^2 mol^2", "kg^4 m^4 s^-4 A^4 K^4 mol^4 cd^4 bit^4"] {
+            ladder.push(format!("factorize {}", q));
+        }
+        for n in [2, 5, 9, 10, 12, 20, 30, 33, 34, 60, 99, 100, 101, 1000, 100000] {
+            ladder.push(format!("factorize m^{}", n));
+            ladder.push(format!("factorize s^-{}", n));
+            ladder.push(format!("factorize (kg m / s)^{}", n));
+        }
+        ladder.push("factorize (((((m^49)^73)^127)^337)^92737)^649657".to_string());
+        ladder.push("factorize ((m^-2147483647)^2147483647) m^-2147483647".to_string());
+        let k = known.clone();
+        rep.absorb(par_sweep(
+            cx,
+            "factorize-ladder",
+            ladder,
+            move || mk_env(k.clone()),
+            |env, line, st| run_history(env, &[(0u8, line.clone())], st),
+            |line| json!({"lines": [line]}),
+        ));
+        rep.mark(cx, "factorize-ladder");
+    }
     let k = known.clone();
     MAX_SHRINK_ITERS.store(250, std::sync::atomic::Ordering::Relaxed);
     let histories = cx.tier.pick(2400u64, 80_000);
@@ -337,14 +348,6 @@ pub fn run(cx: &Cx) -> Report {
             |line| json!({"edge": line}),
         ));
         rep.mark(cx, "expensive-edges");
-    }
-    if let Some(h) = f11 {
-        if let Ok((overran, secs)) = h.join() {
-            rep.stats.note("f11_witness", json!({"query": "factorize J^2", "budget_s": 10, "overran": overran, "seconds": secs}));
-            if overran {
-                rep.stats.known(F11, "factorize J^2");
-            }
-        }
     }
     // thorough tier: what the libFuzzer campaign (started by ./check) saved is replayed here
     // through the supervised worker; only what reproduces is reported
